@@ -37,7 +37,12 @@ def post_explore(ctx, res, pids, opts):
     depth = {}
     for k in keys:
         p = ctx.parent.get(k)
-        depth[k] = 0 if p is None else depth[p[0]] + 1
+        if p is None:
+            depth[k] = 0
+        elif p[0] in depth:
+            depth[k] = depth[p[0]] + 1
+        else:
+            depth[k] = len(ctx.history_of(k))       # path-bounded mode: the parent may not be an expanded state
     limit = ctx.scenario.step_limit
     want_reset = bool({"C04", "C03", "C05"} & set(pids))
     want_limit = "C06" in pids
@@ -228,9 +233,10 @@ def post_explore(ctx, res, pids, opts):
             hist = ctx.history_of(key)
             if not hist:
                 continue
+            stride = 1 if len(ctx.actions) <= 150 else (len(ctx.actions) // 100)
             for a_idx, action in enumerate(ctx.actions):
                 mact = ctx.mactions[a_idx]
-                if mact is None or mact["type"] == "noop":
+                if mact is None or mact["type"] == "noop" or (a_idx + i) % stride:
                     continue
                 dv = draw_values(mact["prob"])
                 for side in ("below", "above"):
